@@ -55,7 +55,7 @@ def mc_runs(out, runs):
 
 
 def validate(out, family, module, cfg, trace, zv, replay_args=(), env=None, deque=False, timeout=1500,
-             max_confirm=25, workers=None, confirm=True, replay_env=None):
+             max_confirm=25, workers=None, confirm=True, replay_env=None, noise=None):
     """Validate recorded cases; confirm rejections by re-execution; fill out."""
     prop = out.prop
     cases = vlib.load_cases(trace)
@@ -104,7 +104,12 @@ def validate(out, family, module, cfg, trace, zv, replay_args=(), env=None, dequ
                     os.unlink(paths[i])
                 except OSError:
                     pass
-        if not confirmed and bad:
+        # noise(case): the recorded rejection rests on a time limit of the harness (a call "did not return" on a busy
+        # machine); when the re-execution, with a longer limit, is accepted, the first observation was the machine's
+        unrepro = [i for i in todo if i not in [c[0] for c in confirmed]]
+        if not confirmed and bad and noise and all(noise(cases[i]) for i in unrepro) and len(bad) == len(todo):
+            out.notes.append("%d rejections rested on the harness's time limit and were accepted on re-execution with a longer one" % len(unrepro))
+        elif not confirmed and bad:
             raise Inconclusive("rejections were not reproducible on re-execution: " + ", ".join(todo[:5]))
         if len(bad) > len(todo):
             out.notes.append("%d further rejected cases not individually confirmed" % (len(bad) - len(todo)))
